@@ -7,7 +7,10 @@
    repaired defects. *)
 From Coq Require Import List Arith Bool PeanoNat.
 Import ListNotations.
-Require Import TL.Model.Core TL.Model.CoreC06 TL.Model.CoreC06Toy TL.Proofs.CoreC06.
+Require Import TL.Model.Core.
+Require Import TL.Model.CoreC06.
+Require Import TL.Model.CoreC06Toy.
+Require Import TL.Proofs.CoreC06.
 
 (* ---- the statement at full strength ---- *)
 Theorem C06_full :
